@@ -301,20 +301,39 @@ def pow10(e):
 
 # ------------------------------------------------------------------------- symre
 class SymMatch:
-    def __init__(self, s, start, end):
+    def __init__(self, s, start, end, groups=None, ngroups=0):
         self.s, self._span = s, (start, end)
+        self.groups_ = dict(groups or {})
+        self.ngroups = ngroups
 
-    def span(self):
-        return self._span
+    def _sp(self, n):
+        if n == 0:
+            return self._span
+        return self.groups_.get(n, (-1, -1))
 
-    def start(self):
-        return self._span[0]
+    def span(self, n=0):
+        return self._sp(n)
 
-    def end(self):
-        return self._span[1]
+    def start(self, n=0):
+        return self._sp(n)[0]
 
-    def group(self, n=0):
-        return self.s[self._span[0] : self._span[1]]
+    def end(self, n=0):
+        return self._sp(n)[1]
+
+    def group(self, *ns):
+        if not ns:
+            ns = (0,)
+        out = []
+        for n in ns:
+            a, b = self._sp(n)
+            out.append(None if a < 0 else self.s[a:b])
+        return out[0] if len(out) == 1 else tuple(out)
+
+    def groups(self, default=None):
+        return tuple(self.group(n) if self._sp(n)[0] >= 0 else default for n in range(1, self.ngroups + 1))
+
+    def __getitem__(self, n):
+        return self.group(n)
 
 
 class SymPattern:
@@ -325,7 +344,8 @@ class SymPattern:
         self.real = real
         self.pattern = real.pattern
         self.flags = real.flags
-        self.tree = sre_parse.parse(real.pattern, real.flags & ~re.UNICODE if False else real.flags)
+        self.tree = sre_parse.parse(real.pattern, real.flags)
+        self.flags = self.tree.state.flags | real.flags  # inline (?i) etc.
         self.groups = self.tree.state.groups - 1
 
     # generator of end positions in priority order
@@ -336,7 +356,10 @@ class SymPattern:
         op, av = nodes[k]
         cs = s.cs
         if op is sre_c.LITERAL:
-            if pos < len(cs) and SymStr.is_char(cs[pos], av):
+            if pos < len(cs) and SymStr.one_of(cs[pos], self._fold(av)):
+                yield from self._m(nodes, k + 1, s, pos + 1, groups)
+        elif op is sre_c.NOT_LITERAL:
+            if pos < len(cs) and not SymStr.one_of(cs[pos], self._fold(av)):
                 yield from self._m(nodes, k + 1, s, pos + 1, groups)
         elif op is sre_c.IN:
             if pos < len(cs) and self._in(av, cs[pos]):
@@ -398,6 +421,13 @@ class SymPattern:
         else:
             raise C.Inconclusive(f"unsupported regex node {op}")
 
+    def _fold(self, code):
+        """the code points a literal matches (both cases under IGNORECASE)"""
+        if self.flags & re.IGNORECASE:
+            ch = chr(code)
+            return tuple(sorted({code, ord(ch.lower()[0]), ord(ch.upper()[0])}))
+        return (code,)
+
     def _in(self, items, c):
         neg = False
         ok = False
@@ -405,9 +435,12 @@ class SymPattern:
             if op is sre_c.NEGATE:
                 neg = True
             elif op is sre_c.LITERAL:
-                ok = ok or SymStr.is_char(c, av)
+                ok = ok or SymStr.one_of(c, self._fold(av))
             elif op is sre_c.RANGE:
                 ok = ok or SymStr.in_range(c, av[0], av[1])
+                if not ok and self.flags & re.IGNORECASE and av[1] - av[0] < 128:
+                    extra = {x for k in range(av[0], av[1] + 1) for x in self._fold(k)} - set(range(av[0], av[1] + 1))
+                    ok = bool(extra) and SymStr.one_of(c, tuple(sorted(extra)))
             elif op is sre_c.CATEGORY:
                 if av is sre_c.CATEGORY_DIGIT:
                     ok = ok or SymStr.in_range(c, 48, 57)
@@ -426,10 +459,57 @@ class SymPattern:
             return self.real.match(s, pos)
         groups = {}
         for e in self._m(list(self.tree), 0, s, pos, groups):
-            m = SymMatch(s, pos, e)
-            m.groups_ = dict(groups)
-            return m
+            return SymMatch(s, pos, e, groups, self.groups)
         return None
+
+    def fullmatch(self, s, pos=0):
+        if isinstance(s, str):
+            return self.real.fullmatch(s, pos)
+        groups = {}
+        for e in self._m(list(self.tree), 0, s, pos, groups):
+            if e == len(s.cs):
+                return SymMatch(s, pos, e, groups, self.groups)
+        return None
+
+    def search(self, s, pos=0):
+        if isinstance(s, str):
+            return self.real.search(s, pos)
+        r = self._search_from(s, pos)
+        if r is None:
+            return None
+        p, e, groups = r
+        return SymMatch(s, p, e, groups, self.groups)
+
+    def finditer(self, s, pos=0):
+        if isinstance(s, str):
+            yield from self.real.finditer(s, pos)
+            return
+        n = len(s.cs)
+        while pos <= n:
+            r = self._search_from(s, pos)
+            if r is None:
+                return
+            p, e, groups = r
+            yield SymMatch(s, p, e, groups, self.groups)
+            pos = e if e > p else p + 1
+
+    def findall(self, s, pos=0):
+        if isinstance(s, str):
+            return self.real.findall(s, pos)
+        out = []
+        for m in self.finditer(s, pos):
+            if self.groups == 0:
+                out.append(m.group(0))
+            elif self.groups == 1:
+                out.append(m.group(1) if m.start(1) >= 0 else SymStr([]))
+            else:
+                out.append(tuple(g if g is not None else SymStr([]) for g in m.groups()))
+        return out
+
+    def sub(self, repl, s, count=0):
+        if isinstance(s, str):
+            return self.real.sub(repl, s, count)
+        raise C.Inconclusive("re.sub on a symbolic string")
 
     def _search_from(self, s, start):
         for p in range(start, len(s.cs) + 1):
@@ -464,3 +544,47 @@ class SymPattern:
             pos = e
         out.append(s[last:])
         return out
+
+
+# ------------------------------------------------------------------- `re` stand-in
+class SymRe:
+    """Module-like stand-in for `re` inside loaded modules (loader extra_imports={'re': SymRe()}):
+    concrete subjects go to the real `re`; symbolic strings run on SymPattern."""
+
+    def __init__(self):
+        self._cache = {}
+        for name in dir(re):
+            if name.isupper() or name in ("error", "escape", "Pattern", "Match", "RegexFlag", "purge"):
+                setattr(self, name, getattr(re, name))
+
+    def compile(self, pattern, flags=0):
+        if isinstance(pattern, SymPattern):
+            return pattern
+        key = (pattern, int(flags))
+        c = self._cache.get(key)
+        if c is None:
+            c = self._cache[key] = SymPattern(re.compile(pattern, flags))
+        return c
+
+    def match(self, pattern, string, flags=0):
+        return self.compile(pattern, flags).match(string)
+
+    def fullmatch(self, pattern, string, flags=0):
+        return self.compile(pattern, flags).fullmatch(string)
+
+    def search(self, pattern, string, flags=0):
+        return self.compile(pattern, flags).search(string)
+
+    def finditer(self, pattern, string, flags=0):
+        return self.compile(pattern, flags).finditer(string)
+
+    def findall(self, pattern, string, flags=0):
+        return self.compile(pattern, flags).findall(string)
+
+    def split(self, pattern, string, maxsplit=0, flags=0):
+        if maxsplit:
+            raise C.Inconclusive("re.split with maxsplit on a symbolic string")
+        return self.compile(pattern, flags).split(string)
+
+    def sub(self, pattern, repl, string, count=0, flags=0):
+        return self.compile(pattern, flags).sub(repl, string, count)
